@@ -1596,4 +1596,1493 @@ theorem covered_mem (m c : FM) (hw : Within m) (h : covered m = .ok c) (p : Int)
       obtain ⟨s, e, rv, hx, _, h2⟩ := h1
       have := hw _ hx; simp only [FSp.within] at this; omega
 
+
+/-! ### inverse(): closed form on sorted non-overlapping forward maps -/
+
+/-- forward real spans, sorted and non-overlapping in parent coordinates starting at `lb`;
+    lost spans have non-negative length -/
+def Chain (lb : Int) : List FSp → Prop
+  | [] => True
+  | .lost n :: r => 0 ≤ n ∧ Chain lb r
+  | .span s e rv :: r => lb ≤ s ∧ s ≤ e ∧ rv = false ∧ Chain e r
+
+instance : ∀ (lb : Int) (l : List FSp), Decidable (Chain lb l)
+  | _, [] => isTrue trivial
+  | lb, .lost n :: r => by unfold Chain; exact @instDecidableAnd _ _ _ (instDecidableChain lb r)
+  | lb, .span s e rv :: r => by
+    unfold Chain
+    exact @instDecidableAnd _ _ _ (@instDecidableAnd _ _ _ (@instDecidableAnd _ _ _ (instDecidableChain e r)))
+
+/-- end of the last real span (or `last` if there is none) -/
+def lastEnd (last : Int) : List FSp → Int
+  | [] => last
+  | .lost _ :: r => lastEnd last r
+  | .span _ e _ :: r => lastEnd e r
+
+/-- closed form of the spans of `inverse()` on a `Chain` map -/
+def invC (last cum : Int) : List FSp → List FSp
+  | [] => []
+  | .lost n :: r => invC last (cum + n) r
+  | .span s e _ :: r =>
+    (if s > last then [FSp.lost (s - last), FSp.span cum (cum + (e - s)) false]
+     else [FSp.span cum (cum + (e - s)) false]) ++ invC e (cum + (e - s)) r
+
+def sortedQ : List Q → Prop
+  | [] => True
+  | [_] => True
+  | x :: y :: r => qle x y = true ∧ sortedQ (y :: r)
+
+theorem foldr_insertQ_of_sorted : ∀ (T : List Q), sortedQ T → T.foldr insertQ [] = T
+  | [], _ => rfl
+  | [x], _ => rfl
+  | x :: y :: r, h => by
+    simp only [sortedQ] at h
+    rw [List.foldr_cons, foldr_insertQ_of_sorted (y :: r) h.2]
+    simp only [insertQ, h.1, if_true]
+
+theorem invTemp_sorted : ∀ (l : List FSp) (lb cum : Int), Chain lb l →
+    sortedQ (invTemp cum l) ∧
+    ∀ q, (invTemp cum l).head? = some q → lb ≤ q.1 ∧ q.1 ≤ q.2.1 ∧ cum ≤ q.2.2.1 ∧ q.2.2.2 = q.2.2.1 + (q.2.1 - q.1)
+  | [], _, _, _ => by simp [invTemp, sortedQ]
+  | .lost n :: r, lb, cum, h => by
+    simp only [Chain] at h
+    simp only [invTemp]
+    obtain ⟨h1, h2⟩ := invTemp_sorted r lb (cum + n) h.2
+    refine ⟨h1, ?_⟩
+    intro q hq
+    have := h2 q hq
+    omega
+  | .span s e rv :: r, lb, cum, h => by
+    simp only [Chain] at h
+    obtain ⟨hlb, hse, hrv, hc⟩ := h
+    subst hrv
+    simp only [invTemp, Bool.false_eq_true, if_false]
+    obtain ⟨h1, h2⟩ := invTemp_sorted r e (cum + (e - s)) hc
+    constructor
+    · cases hT : invTemp (cum + (e - s)) r with
+      | nil => simp [sortedQ]
+      | cons y ys =>
+        rw [hT] at h1 h2
+        simp only [sortedQ]
+        refine ⟨?_, h1⟩
+        have := h2 y rfl
+        obtain ⟨y1, y2, y3, y4⟩ := y
+        simp only [] at this
+        simp only [qle, decide_eq_true_eq]
+        omega
+    · intro q hq
+      simp only [List.head?_cons] at hq
+      injection hq with hq; subst hq
+      exact ⟨hlb, hse, Int.le_refl _, rfl⟩
+
+theorem invLoop_chain : ∀ (l : List FSp) (last cum : Int), Chain last l →
+    invLoop last (invTemp cum l) = .ok (invC last cum l, lastEnd last l)
+  | [], _, _, _ => rfl
+  | .lost n :: r, last, cum, h => by
+    simp only [Chain] at h
+    simp only [invTemp, invC, lastEnd]
+    exact invLoop_chain r last (cum + n) h.2
+  | .span s e rv :: r, last, cum, h => by
+    simp only [Chain] at h
+    obtain ⟨hlb, hse, hrv, hc⟩ := h
+    subst hrv
+    simp only [invTemp, Bool.false_eq_true, if_false, invC, lastEnd, invLoop]
+    rw [if_neg (by omega), invLoop_chain r e (cum + (e - s)) hc]
+    simp only []
+    have : mkSpan cum (cum + (e - s)) (decide (cum > cum + (e - s))) = .span cum (cum + (e - s)) false := by
+      have hd : decide (cum > cum + (e - s)) = false := by simp; omega
+      rw [hd]; unfold mkSpan; rw [if_neg (by omega)]
+    rw [this]
+
+/-- `inverse()` of a `Chain` map, in closed form -/
+theorem inverse_chain (m : FM) (h : Chain 0 m.spans) :
+    inverse m = .ok ⟨invC 0 0 m.spans ++
+      (if m.parentLength > lastEnd 0 m.spans then [FSp.lost (m.parentLength - lastEnd 0 m.spans)] else []), len m⟩ := by
+  unfold inverse
+  simp only []
+  rw [foldr_insertQ_of_sorted _ (invTemp_sorted m.spans 0 0 h).1, invLoop_chain m.spans 0 0 h]
+
+theorem lastEnd_ge : ∀ (l : List FSp) (last : Int), Chain last l → last ≤ lastEnd last l
+  | [], _, _ => by simp [lastEnd]
+  | .lost n :: r, last, h => by simp only [Chain] at h; simp only [lastEnd]; exact lastEnd_ge r last h.2
+  | .span s e rv :: r, last, h => by
+    simp only [Chain] at h; simp only [lastEnd]
+    have := lastEnd_ge r e h.2.2.2; omega
+
+theorem lenL_invC : ∀ (l : List FSp) (last cum : Int), Chain last l →
+    lenL (invC last cum l) = lastEnd last l - last
+  | [], _, _, _ => by simp [invC, lastEnd]
+  | .lost n :: r, last, cum, h => by
+    simp only [Chain] at h; simp only [invC, lastEnd]; exact lenL_invC r last _ h.2
+  | .span s e rv :: r, last, cum, h => by
+    simp only [Chain] at h
+    simp only [invC, lastEnd, lenL_append, lenL_invC r e _ h.2.2.2]
+    split <;> simp [FSp.length] <;> omega
+
+theorem nonNegL_invC : ∀ (l : List FSp) (last cum : Int), Chain last l → NonNegL (invC last cum l)
+  | [], _, _, _ => by simp [invC, NonNegL]
+  | .lost n :: r, last, cum, h => by
+    simp only [Chain] at h; simp only [invC]; exact nonNegL_invC r last _ h.2
+  | .span s e rv :: r, last, cum, h => by
+    simp only [Chain] at h
+    simp only [invC]
+    intro x hx
+    simp only [List.mem_append] at hx
+    rcases hx with hx | hx
+    · split at hx <;> simp only [List.mem_cons, List.not_mem_nil, or_false] at hx
+      · rcases hx with rfl | rfl <;> simp only [FSp.length] <;> omega
+      · subst hx; simp only [FSp.length]; omega
+    · exact nonNegL_invC r e _ h.2.2.2 x hx
+
+
+/-! ### inverse(): pointwise meaning -/
+
+theorem irange_getElem? (a b : Int) (i : Nat) :
+    (irange a b some)[i]? = if i < (b - a).toNat then some (some (a + (i : Int))) else none := by
+  unfold irange
+  split
+  · rename_i h
+    rw [List.getElem?_eq_getElem (by simpa using h)]
+    simp
+  · rename_i h
+    rw [List.getElem?_eq_none (by simpa using h)]
+
+theorem chain_mem : ∀ (l : List FSp) (lb : Int), Chain lb l → ∀ s e rv, .span s e rv ∈ l → lb ≤ s
+  | [], _, _, _, _, _, h => by simp at h
+  | .lost n :: r, lb, hc, s, e, rv, h => by
+    simp only [Chain] at hc
+    simp only [List.mem_cons] at h
+    rcases h with h | h
+    · cases h
+    · exact chain_mem r lb hc.2 s e rv h
+  | .span s0 e0 rv0 :: r, lb, hc, s, e, rv, h => by
+    simp only [Chain] at hc
+    simp only [List.mem_cons] at h
+    rcases h with h | h
+    · injection h with h1 h2 h3; omega
+    · have := chain_mem r e0 hc.2.2.2 s e rv h; omega
+
+theorem chain_pos_ge (l : List FSp) (lb : Int) (hc : Chain lb l) (j : Nat) (p : Int)
+    (h : (coverL l)[j]? = some (some p)) : lb ≤ p := by
+  have hm : some p ∈ coverL l := List.mem_of_getElem? h
+  rw [mem_coverL] at hm
+  obtain ⟨s, e, rv, hx, h1, _⟩ := hm
+  have := chain_mem l lb hc s e rv hx; omega
+
+theorem coverSp_lost (n : Int) : coverSp (.lost n) = List.replicate n.toNat none := rfl
+
+theorem coverL_invC_cons (last cum s e : Int) (rv : Bool) (r : List FSp) (h : last ≤ s) :
+    coverL (invC last cum (.span s e rv :: r)) =
+      List.replicate (s - last).toNat none ++ (irange cum (cum + (e - s)) some ++ coverL (invC e (cum + (e - s)) r)) := by
+  simp only [invC]
+  split
+  · simp only [coverL_append, coverL_cons, coverL_nil, List.append_nil, coverSp_span_irange, coverSp_lost,
+      Bool.false_eq_true, if_false, List.append_assoc]
+  · have : (s - last).toNat = 0 := by omega
+    simp only [coverL_append, coverL_cons, coverL_nil, List.append_nil, coverSp_span_irange,
+      Bool.false_eq_true, if_false, this, List.replicate_zero, List.nil_append]
+
+/-- pointwise: `inverse` swaps map position and parent position -/
+theorem inv_cover : ∀ (l : List FSp) (last cum : Int), Chain last l → ∀ (k : Nat) (j : Int),
+    ((coverL (invC last cum l))[k]? = some (some j) ↔
+      (cum ≤ j ∧ (coverL l)[(j - cum).toNat]? = some (some (last + (k : Int)))))
+  | [], _, _, _, k, j => by simp [invC]
+  | .lost n :: r, last, cum, h, k, j => by
+    simp only [Chain] at h
+    simp only [invC]
+    rw [inv_cover r last (cum + n) h.2 k j]
+    simp only [coverL_cons, coverSp_lost, List.getElem?_append, List.length_replicate]
+    constructor
+    · rintro ⟨h1, h2⟩
+      refine ⟨by omega, ?_⟩
+      rw [if_neg (by omega)]
+      rw [← h2]; congr 1; omega
+    · rintro ⟨h1, h2⟩
+      split at h2
+      · rw [List.getElem?_replicate] at h2
+        split at h2 <;> cases h2
+      · refine ⟨by omega, ?_⟩
+        rw [← h2]; congr 1; omega
+  | .span s e rv :: r, last, cum, h, k, j => by
+    simp only [Chain] at h
+    obtain ⟨hlb, hse, hrv, hc⟩ := h
+    subst hrv
+    rw [coverL_invC_cons _ _ _ _ _ _ hlb]
+    have ih := inv_cover r e (cum + (e - s)) hc
+    simp only [coverL_cons, coverSp_span_irange, Bool.false_eq_true, if_false]
+    have hlen : (irange cum (cum + (e - s)) some).length = (e - s).toNat := by
+      simp only [irange, List.length_map, List.length_range]; omega
+    have hlen' : (irange s e some).length = (e - s).toNat := by
+      simp only [irange, List.length_map, List.length_range]
+    simp only [List.getElem?_append, List.length_replicate, hlen, hlen']
+    -- facts about the right-hand side lookup
+    have rhs_lo : ∀ q : Int, (if (j - cum).toNat < (e - s).toNat then (irange s e some)[(j - cum).toNat]?
+        else (coverL r)[(j - cum).toNat - (e - s).toNat]?) = some (some q) → s ≤ q ∧
+        ((j - cum).toNat < (e - s).toNat → q = s + ((j - cum).toNat : Int)) ∧
+        (¬ (j - cum).toNat < (e - s).toNat → e ≤ q) := by
+      intro q hq
+      split at hq
+      · rename_i hlt
+        rw [irange_getElem?, if_pos hlt] at hq
+        simp only [Option.some.injEq] at hq
+        exact ⟨by omega, fun _ => by omega, fun h => absurd hlt h⟩
+      · rename_i hlt
+        have := chain_pos_ge r e hc _ _ hq
+        exact ⟨by omega, fun h => absurd h hlt, fun _ => this⟩
+    by_cases hk1 : k < (s - last).toNat
+    · -- inside the leading lost span
+      rw [if_pos hk1, List.getElem?_replicate, if_pos hk1]
+      constructor
+      · intro h0; cases h0
+      · rintro ⟨h1, h2⟩
+        have := (rhs_lo _ h2).1; omega
+    · rw [if_neg hk1]
+      by_cases hk2 : k - (s - last).toNat < (e - s).toNat
+      · -- inside the span
+        rw [if_pos hk2, irange_getElem?, if_pos (by omega)]
+        constructor
+        · intro h0
+          simp only [Option.some.injEq] at h0
+          refine ⟨by omega, ?_⟩
+          rw [if_pos (by omega), irange_getElem?, if_pos (by omega)]
+          congr 2; omega
+        · rintro ⟨h1, h2⟩
+          obtain ⟨_, ha, hb⟩ := rhs_lo _ h2
+          by_cases hlt : (j - cum).toNat < (e - s).toNat
+          · have := ha hlt; congr 2; omega
+          · have := hb hlt; omega
+      · -- after the span
+        rw [if_neg hk2, ih]
+        constructor
+        · rintro ⟨h1, h2⟩
+          refine ⟨by omega, ?_⟩
+          rw [if_neg (by omega)]
+          have e1 : (j - cum).toNat - (e - s).toNat = (j - (cum + (e - s))).toNat := by omega
+          rw [e1, h2]; congr 2; omega
+        · rintro ⟨h1, h2⟩
+          obtain ⟨_, ha, hb⟩ := rhs_lo _ h2
+          by_cases hlt : (j - cum).toNat < (e - s).toNat
+          · have := ha hlt; omega
+          · rw [if_neg hlt] at h2
+            refine ⟨by omega, ?_⟩
+            have e1 : (j - (cum + (e - s))).toNat = (j - cum).toNat - (e - s).toNat := by omega
+            rw [e1, h2]; congr 2; omega
+
+
+/-! ### inverse() and shadow(): specifications -/
+
+theorem getElem?_append_nones (A : List (Option Int)) (n k : Nat) (j : Int) :
+    (A ++ List.replicate n none)[k]? = some (some j) ↔ A[k]? = some (some j) := by
+  rw [List.getElem?_append]
+  split
+  · rfl
+  · rename_i h
+    rw [List.getElem?_replicate, List.getElem?_eq_none (by omega)]
+    split <;> simp
+
+theorem chain_nonNeg : ∀ (l : List FSp) (lb : Int), Chain lb l → NonNegL l
+  | [], _, _ => by simp [NonNegL]
+  | .lost n :: r, lb, h => by
+    simp only [Chain] at h
+    intro x hx; simp only [List.mem_cons] at hx
+    rcases hx with rfl | hx
+    · exact h.1
+    · exact chain_nonNeg r lb h.2 x hx
+  | .span s e rv :: r, lb, h => by
+    simp only [Chain] at h
+    intro x hx; simp only [List.mem_cons] at hx
+    rcases hx with rfl | hx
+    · simp only [FSp.length]; omega
+    · exact chain_nonNeg r e h.2.2.2 x hx
+
+/-- `inverse()` of a sorted, non-overlapping, forward map whose last end is inside the parent -/
+theorem inverse_spec (m : FM) (hc : Chain 0 m.spans) (hle : lastEnd 0 m.spans ≤ m.parentLength) :
+    ∃ i, inverse m = .ok i ∧ i.parentLength = len m ∧ len i = m.parentLength ∧ NonNeg i ∧
+      ∀ (k : Nat) (j : Int), (cover i)[k]? = some (some j) ↔
+        (0 ≤ j ∧ (cover m)[j.toNat]? = some (some (k : Int))) := by
+  refine ⟨_, inverse_chain m hc, rfl, ?_, ?_, ?_⟩
+  · simp only [len_eq_lenL, lenL_append, lenL_invC _ _ _ hc]
+    split <;> simp [FSp.length] <;> omega
+  · intro x hx
+    simp only [List.mem_append] at hx
+    rcases hx with hx | hx
+    · exact nonNegL_invC _ _ _ hc x hx
+    · split at hx
+      · simp only [List.mem_cons, List.not_mem_nil, or_false] at hx
+        subst hx; simp only [FSp.length]; omega
+      · simp at hx
+  · intro k j
+    have := inv_cover m.spans 0 0 hc k j
+    simp only [Int.sub_zero, Int.zero_add] at this
+    rw [cover_eq_coverL, cover_eq_coverL, ← this]
+    simp only [coverL_append]
+    split
+    · simp only [coverL_cons, coverL_nil, List.append_nil, coverSp_lost]
+      exact getElem?_append_nones _ _ _ _
+    · simp
+
+theorem none_not_mem_coverSp_span (s e : Int) (rv : Bool) (i : Nat) :
+    (coverSp (.span s e rv))[i]? ≠ some none := by
+  intro h
+  have hm : none ∈ coverSp (.span s e rv) := List.mem_of_getElem? h
+  rw [coverSp_span_irange] at hm
+  have : none ∉ irange s e some := by simp [irange]
+  cases rv <;> simp at hm <;> exact this hm
+
+/-- the locations `gaps()` hands to `from_locations` are exactly the lost map positions -/
+theorem locsOf_lost : ∀ (l : List FSp) (off p : Int), NonNegL l →
+    (inLocs (locsOf true off l) p ↔ off ≤ p ∧ (coverL l)[(p - off).toNat]? = some none)
+  | [], off, p, _ => by simp [locsOf, inLocs]
+  | x :: r, off, p, hN => by
+    have hx := hN.head
+    have ih := locsOf_lost r (off + x.length) p hN.tail
+    have hsplit : ∀ (A B : List (Int × Int)), inLocs (A ++ B) p ↔ inLocs A p ∨ inLocs B p := by
+      intro A B
+      simp only [inLocs, List.mem_append]
+      constructor
+      · rintro ⟨ab, (h | h), h1⟩
+        · left; exact ⟨ab, h, h1⟩
+        · right; exact ⟨ab, h, h1⟩
+      · rintro (⟨ab, h, h1⟩ | ⟨ab, h, h1⟩)
+        · exact ⟨ab, Or.inl h, h1⟩
+        · exact ⟨ab, Or.inr h, h1⟩
+    simp only [locsOf, hsplit, ih, coverL_cons, List.getElem?_append, coverSp_length]
+    cases x with
+    | lost n =>
+      rw [show (FSp.lost n).length = n from rfl] at hx ih ⊢
+      simp only [FSp.isLost, if_true, coverSp_lost, List.getElem?_replicate]
+      have h1 : inLocs [(off, off + n)] p ↔ off ≤ p ∧ p < off + n := by simp [inLocs]
+      rw [h1]
+      constructor
+      · rintro (h | ⟨h, h2⟩)
+        · refine ⟨h.1, ?_⟩
+          rw [if_pos (by omega), if_pos (by omega)]
+        · refine ⟨by omega, ?_⟩
+          rw [if_neg (by omega), ← h2]; congr 1; omega
+      · rintro ⟨h, h2⟩
+        by_cases hlt : (p - off).toNat < n.toNat
+        · left; omega
+        · right
+          rw [if_neg hlt] at h2
+          refine ⟨by omega, ?_⟩
+          rw [← h2]; congr 1; omega
+    | span s e rv =>
+      simp only [FSp.isLost, Bool.false_eq_true, if_false]
+      generalize hLdef : (FSp.span s e rv).length = L at *
+      have h1 : ¬ inLocs [] p := by simp [inLocs]
+      constructor
+      · rintro (h | ⟨h, h2⟩)
+        · exact absurd h h1
+        · refine ⟨by omega, ?_⟩
+          rw [if_neg (by omega), ← h2]; congr 1; omega
+      · rintro ⟨h, h2⟩
+        right
+        split at h2
+        · exact absurd h2 (none_not_mem_coverSp_span s e rv _)
+        · rename_i hlt
+          refine ⟨by omega, ?_⟩
+          rw [← h2]; congr 1; omega
+
+/-- `shadow()` = `inverse().gaps()` covers exactly the parent positions the map does not cover -/
+theorem shadow_spec (m s : FM) (hc : Chain 0 m.spans) (hle : lastEnd 0 m.spans ≤ m.parentLength)
+    (h : shadow m = .ok s) (p : Int) :
+    some p ∈ cover s ↔ (0 ≤ p ∧ p < m.parentLength ∧ some p ∉ cover m) := by
+  obtain ⟨i, hi, hpl, hlen, hN, hcov⟩ := inverse_spec m hc hle
+  unfold shadow at h
+  rw [hi] at h
+  simp only [] at h
+  unfold gaps at h
+  rw [fromLocations_mem _ _ p s h, locsOf_lost _ _ _ hN, hlen, ← cover_eq_coverL]
+  simp only [Int.sub_zero]
+  have hL : ((cover i).length : Int) = m.parentLength := by
+    rw [← hlen]; exact coverL_length hN
+  constructor
+  · rintro ⟨⟨h0, h1⟩, h2⟩
+    refine ⟨h0, h2, ?_⟩
+    intro hm
+    obtain ⟨j, hj⟩ := List.getElem?_of_mem hm
+    have := (hcov p.toNat (j : Int)).2 ⟨by omega, by
+      rw [show ((j : Int)).toNat = j by omega, hj]; congr 2; omega⟩
+    rw [h1] at this; cases this
+  · rintro ⟨h0, h1, h2⟩
+    refine ⟨⟨h0, ?_⟩, h1⟩
+    have hlt : p.toNat < (cover i).length := by omega
+    rw [List.getElem?_eq_getElem hlt]
+    cases hx : (cover i)[p.toNat] with
+    | none => rfl
+    | some j =>
+      exfalso
+      have h3 : (cover i)[p.toNat]? = some (some j) := by rw [List.getElem?_eq_getElem hlt, hx]
+      have := (hcov p.toNat j).1 h3
+      apply h2
+      have h4 : (cover m)[j.toNat]? = some (some p) := by rw [this.2]; congr 2; omega
+      exact List.mem_of_getElem? h4
+
+
+/-! ### SortedFwd -/
+/-- forward spans, sorted and non-overlapping in parent coordinates, inside `[0, parentLength]`,
+    lost spans of non-negative length -/
+def SortedFwd (m : FM) : Prop := Chain 0 m.spans ∧ lastEnd 0 m.spans ≤ m.parentLength
+instance (m : FM) : Decidable (SortedFwd m) := by unfold SortedFwd; infer_instance
+
+/-! ### inverse() stays inside its parent -/
+
+theorem invTemp_bounds : ∀ (l : List FSp) (cum : Int), NonNegL l →
+    ∀ q ∈ invTemp cum l, cum ≤ q.2.2.1 ∧ cum ≤ q.2.2.2 ∧ q.2.2.1 ≤ cum + lenL l ∧ q.2.2.2 ≤ cum + lenL l
+  | [], _, _, q, hq => by simp [invTemp] at hq
+  | .lost n :: r, cum, hN, q, hq => by
+    simp only [invTemp] at hq
+    have := invTemp_bounds r (cum + n) hN.tail q hq
+    have hn : 0 ≤ n := hN.head
+    simp only [lenL_cons, FSp.length]; omega
+  | .span s e rv :: r, cum, hN, q, hq => by
+    simp only [invTemp, List.mem_cons] at hq
+    have hn : 0 ≤ e - s := hN.head
+    have hr := lenL_nonneg hN.tail
+    simp only [lenL_cons, FSp.length]
+    rcases hq with rfl | hq
+    · split <;> simp only [] <;> omega
+    · have := invTemp_bounds r (cum + (e - s)) hN.tail q hq
+      omega
+
+theorem mem_insertQ (v x : Q) (L : List Q) : x ∈ insertQ v L ↔ x = v ∨ x ∈ L := by
+  induction L with
+  | nil => simp [insertQ]
+  | cons y ys ih =>
+    simp only [insertQ]
+    split
+    · simp
+    · simp only [List.mem_cons, ih]
+      constructor <;> (intro h; rcases h with h | h | h <;> simp [h])
+
+theorem mem_sortedQ (T : List Q) (x : Q) : x ∈ T.foldr insertQ [] ↔ x ∈ T := by
+  induction T with
+  | nil => simp
+  | cons y ys ih => simp only [List.foldr_cons, mem_insertQ, ih, List.mem_cons]
+
+theorem invLoop_within (L : Int) : ∀ (T : List Q) (last : Int) (sp : List FSp) (ls : Int),
+    (∀ q ∈ T, 0 ≤ q.2.2.1 ∧ 0 ≤ q.2.2.2 ∧ q.2.2.1 ≤ L ∧ q.2.2.2 ≤ L) →
+    invLoop last T = .ok (sp, ls) → ∀ x ∈ sp, x.within L
+  | [], _, sp, ls, _, h => by
+    simp only [invLoop] at h; injection h with h; injection h with h1 h2; subst h1; simp
+  | (s, e, cs, ce) :: r, last, sp, ls, hT, h => by
+    simp only [invLoop] at h
+    split at h
+    · cases h
+    · split at h
+      · cases h
+      · rename_i rest ls' hr
+        have ih := invLoop_within L r e rest ls' (fun q hq => hT q (List.mem_cons_of_mem _ hq)) hr
+        have hb := hT (s, e, cs, ce) List.mem_cons_self
+        simp only [] at hb
+        injection h with h; injection h with h1 h2; subst h1
+        have hmk : (mkSpan cs ce (decide (cs > ce))).within L := by
+          unfold mkSpan; split <;> simp only [FSp.within] <;> omega
+        intro x hx
+        simp only [List.mem_append] at hx
+        rcases hx with hx | hx
+        · split at hx <;> simp only [List.mem_cons, List.not_mem_nil, or_false] at hx
+          · rcases hx with rfl | rfl
+            · trivial
+            · exact hmk
+          · subst hx; exact hmk
+        · exact ih x hx
+
+/-- `inverse()` stays inside its parent, which is the map's own coordinate system `[0, len m]` -/
+theorem inverse_within (m i : FM) (hN : NonNeg m) (h : inverse m = .ok i) :
+    Within i ∧ i.parentLength = len m := by
+  unfold inverse at h
+  simp only [] at h
+  split at h
+  · cases h
+  · rename_i sp ls hl
+    injection h with h; subst h
+    refine ⟨?_, rfl⟩
+    have hb : ∀ q ∈ (invTemp 0 m.spans).foldr insertQ [],
+        0 ≤ q.2.2.1 ∧ 0 ≤ q.2.2.2 ∧ q.2.2.1 ≤ len m ∧ q.2.2.2 ≤ len m := by
+      intro q hq
+      have := invTemp_bounds m.spans 0 hN q ((mem_sortedQ _ q).1 hq)
+      rw [len_eq_lenL]; omega
+    have := invLoop_within (len m) _ 0 sp ls hb hl
+    intro x hx
+    simp only [List.mem_append] at hx
+    rcases hx with hx | hx
+    · exact this x hx
+    · split at hx
+      · simp only [List.mem_cons, List.not_mem_nil, or_false] at hx; subst hx; trivial
+      · simp at hx
+
+/-- `shadow()` stays inside the parent of the inverse's inverse, i.e. `[0, len (inverse m)]` -/
+theorem shadow_within (m s : FM) (h : shadow m = .ok s) : Within s := by
+  unfold shadow at h
+  split at h
+  · cases h
+  · exact (gaps_within _ _ h).1
+
+
+/-! ### inverse() is an involution on complete sorted maps -/
+
+/-- no lost spans (`FeatureMap.complete`) -/
+def Complete (l : List FSp) : Prop := ∀ x ∈ l, x.isLost = false
+instance (l : List FSp) : Decidable (Complete l) := by unfold Complete; infer_instance
+
+theorem Complete.tail {x : FSp} {l : List FSp} (h : Complete (x :: l)) : Complete l :=
+  fun y hy => h y (List.mem_cons_of_mem _ hy)
+
+theorem chain_weaken : ∀ (l : List FSp) (lb lb' : Int), lb' ≤ lb → Chain lb l → Chain lb' l
+  | [], _, _, _, _ => trivial
+  | .lost n :: r, lb, lb', h, hc => by
+    simp only [Chain] at hc ⊢; exact ⟨hc.1, chain_weaken r lb lb' h hc.2⟩
+  | .span s e rv :: r, lb, lb', h, hc => by
+    simp only [Chain] at hc ⊢; exact ⟨by omega, hc.2⟩
+
+theorem chain_invC_append : ∀ (l : List FSp) (last cum lb : Int) (T : List FSp), Chain last l → lb ≤ cum →
+    (∀ c, cum + lenL l ≤ c → Chain c T) → Chain lb (invC last cum l ++ T)
+  | [], last, cum, lb, T, _, hlb, hT => by
+    simp only [invC, List.nil_append]
+    exact chain_weaken T cum lb hlb (hT cum (by simp))
+  | .lost n :: r, last, cum, lb, T, h, hlb, hT => by
+    simp only [Chain] at h
+    simp only [invC]
+    exact chain_invC_append r last (cum + n) lb T h.2 (by omega) (fun c hc => hT c (by simp only [lenL_cons, FSp.length]; omega))
+  | .span s e rv :: r, last, cum, lb, T, h, hlb, hT => by
+    simp only [Chain] at h
+    have ih := chain_invC_append r e (cum + (e - s)) (cum + (e - s)) T h.2.2.2 (by omega)
+      (fun c hc => hT c (by simp only [lenL_cons, FSp.length]; omega))
+    simp only [invC]
+    split
+    · simp only [List.cons_append, List.nil_append, Chain]
+      exact ⟨by omega, hlb, by omega, trivial, ih⟩
+    · simp only [List.cons_append, List.nil_append, Chain]
+      exact ⟨hlb, by omega, trivial, ih⟩
+
+/-- inverting the inverse of a complete chain gives the chain back -/
+theorem invC_invC : ∀ (l : List FSp) (last cum : Int) (T : List FSp), Chain last l → Complete l →
+    invC cum last (invC last cum l ++ T) = l ++ invC (cum + lenL l) (lastEnd last l) T
+  | [], last, cum, T, _, _ => by simp [invC, lastEnd]
+  | .lost n :: r, last, cum, T, _, hC => by
+    have := hC (.lost n) List.mem_cons_self
+    simp [FSp.isLost] at this
+  | .span s e rv :: r, last, cum, T, h, hC => by
+    simp only [Chain] at h
+    obtain ⟨hlb, hse, hrv, hc⟩ := h
+    subst hrv
+    have ih := invC_invC r e (cum + (e - s)) T hc hC.tail
+    simp only [invC, lastEnd, lenL_cons, FSp.length]
+    split
+    · simp only [List.cons_append, List.nil_append, invC]
+      rw [if_neg (by omega)]
+      simp only [List.cons_append, List.nil_append]
+      have e1 : last + (s - last) + (cum + (e - s) - cum) = e := by omega
+      have e2 : cum + (e - s + lenL r) = cum + (e - s) + lenL r := by omega
+      rw [e1, e2, ih]
+      have e3 : last + (s - last) = s := by omega
+      rw [e3]
+    · have hs : s = last := by omega
+      subst hs
+      simp only [List.cons_append, List.nil_append, invC]
+      rw [if_neg (by omega)]
+      simp only [List.cons_append, List.nil_append]
+      have e1 : s + (cum + (e - s) - cum) = e := by omega
+      have e2 : cum + (e - s + lenL r) = cum + (e - s) + lenL r := by omega
+      rw [e1, e2, ih]
+
+theorem lastEnd_invC : ∀ (l : List FSp) (last cum : Int), Chain last l → Complete l →
+    ∀ n, lastEnd cum (invC last cum l ++ [FSp.lost n]) = cum + lenL l ∧
+      lastEnd cum (invC last cum l) = cum + lenL l
+  | [], last, cum, _, _, n => by simp [invC, lastEnd]
+  | .lost k :: r, last, cum, _, hC, n => by
+    have := hC (.lost k) List.mem_cons_self
+    simp [FSp.isLost] at this
+  | .span s e rv :: r, last, cum, h, hC, n => by
+    simp only [Chain] at h
+    have ih := lastEnd_invC r e (cum + (e - s)) h.2.2.2 hC.tail n
+    simp only [invC, lenL_cons, FSp.length]
+    split <;> simp only [List.cons_append, List.nil_append, lastEnd] <;> (constructor <;> omega)
+
+theorem inverse_inverse_complete (m i : FM) (hc : Chain 0 m.spans) (hle : lastEnd 0 m.spans ≤ m.parentLength)
+    (hC : Complete m.spans) (h : inverse m = .ok i) : inverse i = .ok m := by
+  obtain ⟨i', hi', hpl, hlen, _, _⟩ := inverse_spec m hc hle
+  rw [h] at hi'; injection hi' with hi'; subst hi'
+  rw [inverse_chain m hc] at h
+  injection h with h
+  have hci : Chain 0 i.spans := by
+    rw [← h]
+    simp only []
+    apply chain_invC_append _ _ _ _ _ hc (by omega)
+    intro c _
+    split <;> simp [Chain]; omega
+  rw [inverse_chain i hci, hlen]
+  have hsp : i.spans = invC 0 0 m.spans ++
+      (if m.parentLength > lastEnd 0 m.spans then [FSp.lost (m.parentLength - lastEnd 0 m.spans)] else []) := by
+    rw [← h]
+  have hL : lastEnd 0 i.spans = len m := by
+    rw [hsp, len_eq_lenL]
+    have := lastEnd_invC m.spans 0 0 hc hC (m.parentLength - lastEnd 0 m.spans)
+    split
+    · rw [this.1]; omega
+    · rw [List.append_nil, this.2]; omega
+  have hS : invC 0 0 i.spans = m.spans := by
+    rw [hsp, invC_invC m.spans 0 0 _ hc hC]
+    split <;> simp [invC]
+  rw [hS, hL, hpl, if_neg (by omega), List.append_nil]
+
+
+/-! ### covered(): result is sorted, disjoint, non-adjacent -/
+
+/-- the sweep emits non-empty, strictly separated intervals whose end points are keys -/
+theorem sweep_sep : ∀ (L : List (Int × Int)) (y : Int) (start : Option Int) (locs : List (Int × Int)),
+    SSorted L → (∀ s0, start = some s0 → ∀ x ∈ L, s0 < x.1) → (y ≠ 0 → start.isSome = true) →
+    sweep y start L = .ok locs →
+    (∀ ab ∈ locs, ab.1 < ab.2) ∧ locs.Pairwise (fun a b => a.2 < b.1) ∧
+    (∀ ab ∈ locs, (ab.1 ∈ keys L ∨ start = some ab.1) ∧ ab.2 ∈ keys L)
+  | [], y, start, locs, _, _, _, h => by
+    simp only [sweep] at h; injection h with h; subst h; simp
+  | (x, d) :: r, y, start, locs, hS, hst, hy, h => by
+    simp only [SSorted, List.pairwise_cons] at hS
+    have hr' : ∀ z ∈ r, x < z.1 := fun z hz => by have := hS.1 z hz; simpa using this
+    have hst' : ∀ s0, start = some s0 → ∀ z ∈ r, s0 < z.1 :=
+      fun s0 h0 z hz => hst s0 h0 z (List.mem_cons_of_mem _ hz)
+    have hkeys : ∀ j, j ∈ keys r → j ∈ keys ((x, d) :: r) := by
+      intro j hj; simp only [keys, List.map_cons, List.mem_cons]; right; exact hj
+    simp only [sweep] at h
+    split at h
+    · rename_i hc
+      split at h
+      · cases h
+      · obtain ⟨A, B, C⟩ := sweep_sep r (y + d) (some x) locs hS.2
+          (fun s0 h0 => by injection h0 with h0; subst h0; exact hr') (fun _ => rfl) h
+        refine ⟨A, B, ?_⟩
+        intro ab hab
+        obtain ⟨c1, c2⟩ := C ab hab
+        refine ⟨?_, hkeys _ c2⟩
+        rcases c1 with c1 | c1
+        · left; exact hkeys _ c1
+        · injection c1 with c1; left; simp [keys, c1]
+    · split at h
+      · rename_i _ hc
+        cases hrest : sweep (y + d) none r with
+        | error er => rw [hrest] at h; cases h
+        | ok rest =>
+          rw [hrest] at h
+          injection h with h; subst h
+          obtain ⟨A, B, C⟩ := sweep_sep r (y + d) none rest hS.2 (fun s0 h0 => by cases h0)
+            (fun h0 => absurd hc.2 h0) hrest
+          have hsome := hy hc.1
+          obtain ⟨s0, hs0⟩ := Option.isSome_iff_exists.1 hsome
+          subst hs0
+          simp only [Option.getD_some]
+          have hs0x : s0 < x := hst s0 rfl (x, d) List.mem_cons_self
+          refine ⟨?_, ?_, ?_⟩
+          · intro ab hab
+            simp only [List.mem_cons] at hab
+            rcases hab with rfl | hab
+            · exact hs0x
+            · exact A ab hab
+          · simp only [List.pairwise_cons]
+            refine ⟨?_, B⟩
+            intro ab hab
+            obtain ⟨c1, _⟩ := C ab hab
+            rcases c1 with c1 | c1
+            · simp only [keys, List.mem_map] at c1
+              obtain ⟨z, hz, hz1⟩ := c1
+              have := hr' z hz
+              show x < ab.1
+              omega
+            · cases c1
+          · intro ab hab
+            simp only [List.mem_cons] at hab
+            rcases hab with rfl | hab
+            · exact ⟨Or.inr rfl, by simp [keys]⟩
+            · obtain ⟨c1, c2⟩ := C ab hab
+              refine ⟨?_, hkeys _ c2⟩
+              rcases c1 with c1 | c1
+              · left; exact hkeys _ c1
+              · cases c1
+      · rename_i hc1 hc2
+        have hy' : y + d ≠ 0 → start.isSome = true := by
+          intro h0
+          by_cases hy0 : y = 0
+          · exact absurd ⟨h0, hy0⟩ hc1
+          · exact hy hy0
+        obtain ⟨A, B, C⟩ := sweep_sep r (y + d) start locs hS.2 hst' hy' h
+        refine ⟨A, B, ?_⟩
+        intro ab hab
+        obtain ⟨c1, c2⟩ := C ab hab
+        refine ⟨?_, hkeys _ c2⟩
+        rcases c1 with c1 | c1
+        · left; exact hkeys _ c1
+        · right; exact c1
+
+theorem keys_foldl (l : List FSp) (d : List (Int × Int)) (j : Int)
+    (h : j ∈ keys (l.foldl deltaStep d)) :
+    j ∈ keys d ∨ ∃ s e rv, .span s e rv ∈ l ∧ (j = s ∨ j = e) := by
+  induction l generalizing d with
+  | nil => left; exact h
+  | cons x xs ih =>
+    simp only [List.foldl_cons] at h
+    rcases ih _ h with h1 | ⟨s, e, rv, hm, hj⟩
+    · cases x with
+      | lost n => left; exact h1
+      | span a b rv =>
+        simp only [deltaStep, mem_keys_deltaAdd] at h1
+        rcases h1 with h1 | h1 | h1
+        · right; exact ⟨a, b, rv, List.mem_cons_self, Or.inr h1⟩
+        · right; exact ⟨a, b, rv, List.mem_cons_self, Or.inl h1⟩
+        · left; exact h1
+    · right; exact ⟨s, e, rv, List.mem_cons_of_mem _ hm, hj⟩
+
+theorem spansFromLocs_exact (pl : Int) : ∀ (locs : List (Int × Int)),
+    (∀ ab ∈ locs, 0 ≤ ab.1 ∧ ab.1 ≤ ab.2 ∧ ab.2 ≤ pl) →
+    spansFromLocs pl locs = .ok (locs.map (fun ab => FSp.span ab.1 ab.2 false))
+  | [], _ => rfl
+  | (s, e) :: r, h => by
+    have h0 := h (s, e) List.mem_cons_self
+    simp only [] at h0
+    unfold spansFromLocs
+    rw [if_neg (by omega), if_neg (by omega), spansFromLocs_exact pl r (fun ab hab => h ab (List.mem_cons_of_mem _ hab))]
+    simp only []
+    rw [if_neg (by omega)]
+    rfl
+
+/-- `covered()`: the result consists of non-empty forward spans that are sorted, disjoint and
+    non-adjacent -/
+theorem covered_separated (m c : FM) (hw : Within m) (h : covered m = .ok c) :
+    ∃ locs : List (Int × Int), c.spans = locs.map (fun ab => FSp.span ab.1 ab.2 false) ∧
+      (∀ ab ∈ locs, ab.1 < ab.2) ∧ locs.Pairwise (fun a b => a.2 < b.1) := by
+  rw [covered_unfold] at h
+  split at h
+  · cases h
+  · rename_i locs hsw
+    have hS := ssorted_sorted (m.spans.foldl deltaStep []) (keys_nodup_foldl _ _ (by simp [keys]))
+    obtain ⟨A, B, C⟩ := sweep_sep _ 0 none locs hS (fun s0 h0 => by cases h0) (fun h0 => absurd rfl h0) hsw
+    refine ⟨locs, ?_, A, B⟩
+    have hkey : ∀ j, j ∈ keys ((m.spans.foldl deltaStep []).foldr insertKey []) → 0 ≤ j ∧ j ≤ m.parentLength := by
+      intro j hj
+      simp only [keys, List.mem_map] at hj
+      obtain ⟨z, hz, rfl⟩ := hj
+      have hz' := (mem_sorted _ z).1 hz
+      have : z.1 ∈ keys (m.spans.foldl deltaStep []) := by
+        simp only [keys, List.mem_map]; exact ⟨z, hz', rfl⟩
+      rcases keys_foldl _ _ _ this with h1 | ⟨s, e, rv, hm, hj⟩
+      · simp [keys] at h1
+      · have := hw _ hm
+        simp only [FSp.within] at this
+        rcases hj with hj | hj <;> omega
+    have hb : ∀ ab ∈ locs, 0 ≤ ab.1 ∧ ab.1 ≤ ab.2 ∧ ab.2 ≤ m.parentLength := by
+      intro ab hab
+      obtain ⟨c1, c2⟩ := C ab hab
+      have := A ab hab
+      rcases c1 with c1 | c1
+      · have := hkey _ c1; have := hkey _ c2; omega
+      · cases c1
+    unfold fromLocations at h
+    split at h
+    · cases h
+    · rename_i sp hs
+      injection h with h; subst h
+      simp only []
+      cases locs with
+      | nil => simp [spansFromLocations] at hs; subst hs; rfl
+      | cons first rest =>
+        unfold spansFromLocations at hs
+        split at hs
+        · split at hs
+          · cases hs
+          · rw [spansFromLocs_exact _ _ hb] at hs
+            injection hs with hs; exact hs.symm
+        · rename_i hno
+          exfalso
+          cases hl : (first :: rest).getLast? with
+          | none => simp at hl
+          | some last => exact hno first rest last rfl hl
+
+
+/-! ### inverse() in general: the loop over sorted tuples -/
+
+/-- what the `inverse()` tuple `(start, end, cum_start, cum_end)` says about parent position `k` -/
+def tupAt (q : Q) (k : Int) : Option Int :=
+  if q.1 ≤ k ∧ k < q.2.1 then
+    some (if q.2.2.1 ≤ q.2.2.2 then q.2.2.1 + (k - q.1) else q.2.2.1 - 1 - (k - q.1))
+  else none
+
+def wfQ (q : Q) : Prop :=
+  q.1 ≤ q.2.1 ∧ (q.2.2.2 - q.2.2.1 = q.2.1 - q.1 ∨ q.2.2.1 - q.2.2.2 = q.2.1 - q.1)
+
+/-- tuples sorted and non-overlapping in parent coordinates, from `last` on -/
+def QChain (last : Int) : List Q → Prop
+  | [] => True
+  | q :: r => last ≤ q.1 ∧ wfQ q ∧ QChain q.2.1 r
+
+theorem qchain_mem : ∀ (T : List Q) (lb : Int), QChain lb T → ∀ q ∈ T, lb ≤ q.1
+  | [], _, _, q, hq => by simp at hq
+  | q0 :: r, lb, h, q, hq => by
+    simp only [QChain] at h
+    simp only [List.mem_cons] at hq
+    rcases hq with rfl | hq
+    · exact h.1
+    · have := qchain_mem r _ h.2.2 q hq
+      have := h.2.1.1; omega
+
+theorem coverSp_mk_getElem? (s e cs ce : Int) (hw : wfQ (s, e, cs, ce)) (t : Nat) :
+    (coverSp (mkSpan cs ce (decide (cs > ce))))[t]? =
+      if t < (e - s).toNat then some (some (if cs ≤ ce then cs + (t : Int) else cs - 1 - (t : Int))) else none := by
+  simp only [wfQ] at hw
+  by_cases hc : cs ≤ ce
+  · have hd : decide (cs > ce) = false := by simp; omega
+    have : mkSpan cs ce false = .span cs ce false := by unfold mkSpan; rw [if_neg (by omega)]
+    rw [hd, this, coverSp_span_irange]
+    simp only [Bool.false_eq_true, if_false, irange_getElem?, if_pos hc]
+    have : (ce - cs).toNat = (e - s).toNat := by omega
+    rw [this]
+  · have hd : decide (cs > ce) = true := by simp; omega
+    have : mkSpan cs ce true = .span ce cs true := by unfold mkSpan; rw [if_pos (by omega)]
+    rw [hd, this, coverSp_span_irange]
+    simp only [if_true, if_neg hc]
+    have hl : (irange ce cs some).length = (e - s).toNat := by
+      simp only [irange, List.length_map, List.length_range]; omega
+    split
+    · rename_i ht
+      rw [List.getElem?_eq_getElem (by simp only [List.length_reverse, hl]; exact ht)]
+      rw [List.getElem_reverse]
+      have h2 := irange_getElem? ce cs ((irange ce cs some).length - 1 - t)
+      rw [if_pos (by omega), List.getElem?_eq_getElem (by omega)] at h2
+      rw [h2]; congr 2; omega
+    · rename_i ht
+      rw [List.getElem?_eq_none (by simp only [List.length_reverse, hl]; omega)]
+
+/-- the loop of `inverse()` over sorted non-overlapping tuples -/
+theorem invLoop_cover : ∀ (T : List Q) (last : Int), QChain last T →
+    ∃ sp ls, invLoop last T = .ok (sp, ls) ∧ NonNegL sp ∧ last ≤ ls ∧ lenL sp = ls - last ∧
+      (∀ q ∈ T, q.2.1 ≤ ls) ∧
+      ∀ (k : Nat) (j : Int), (coverL sp)[k]? = some (some j) ↔ ∃ q ∈ T, tupAt q (last + (k : Int)) = some j
+  | [], last, _ => ⟨[], last, rfl, by simp [NonNegL], by omega, by simp, by simp, by simp⟩
+  | (s, e, cs, ce) :: r, last, h => by
+    simp only [QChain] at h
+    obtain ⟨hlb, hw, hc⟩ := h
+    obtain ⟨sp', ls, hl, hN, hle, hlen, hub, hcov⟩ := invLoop_cover r e hc
+    have hw' := hw
+    simp only [wfQ] at hw'
+    simp only [invLoop]
+    rw [if_neg (by omega), hl]
+    simp only []
+    have hmklen : (mkSpan cs ce (decide (cs > ce))).length = e - s := by
+      unfold mkSpan; split <;> simp only [FSp.length] <;> omega
+    refine ⟨_, ls, rfl, ?_, by omega, ?_, ?_, ?_⟩
+    · intro x hx
+      simp only [List.mem_append] at hx
+      rcases hx with hx | hx
+      · split at hx <;> simp only [List.mem_cons, List.not_mem_nil, or_false] at hx
+        · rcases hx with rfl | rfl
+          · simp only [FSp.length]; omega
+          · rw [hmklen]; omega
+        · subst hx; rw [hmklen]; omega
+      · exact hN x hx
+    · have hlost : (FSp.lost (s - last)).length = s - last := rfl
+      simp only [lenL_append, hlen]
+      split <;> simp only [lenL_cons, lenL_nil, hmklen, hlost] <;> omega
+    · intro q hq
+      simp only [List.mem_cons] at hq
+      rcases hq with rfl | hq
+      · exact hle
+      · exact hub q hq
+    · intro k j
+      have hcl : coverL ((if s > last then [FSp.lost (s - last), mkSpan cs ce (decide (cs > ce))]
+          else [mkSpan cs ce (decide (cs > ce))]) ++ sp') =
+          List.replicate (s - last).toNat none ++ (coverSp (mkSpan cs ce (decide (cs > ce))) ++ coverL sp') := by
+        split
+        · simp only [coverL_append, coverL_cons, coverL_nil, List.append_nil, coverSp_lost, List.append_assoc]
+        · have : (s - last).toNat = 0 := by omega
+          simp only [coverL_append, coverL_cons, coverL_nil, List.append_nil, this, List.replicate_zero,
+            List.nil_append]
+      rw [hcl]
+      have hlen2 : (coverSp (mkSpan cs ce (decide (cs > ce)))).length = (e - s).toNat := by
+        rw [coverSp_length, hmklen]
+      simp only [List.getElem?_append, List.length_replicate, hlen2]
+      have hrest : ∀ q ∈ r, ∀ k' : Int, k' < e → tupAt q k' = none := by
+        intro q hq k' hk'
+        have := qchain_mem r e hc q hq
+        simp only [tupAt]; rw [if_neg (by omega)]
+      have hq0 : ∀ k' : Int, tupAt (s, e, cs, ce) k' =
+          if s ≤ k' ∧ k' < e then some (if cs ≤ ce then cs + (k' - s) else cs - 1 - (k' - s)) else none := fun _ => rfl
+      have hex : ∀ (P : Q → Prop), (∃ q ∈ (s, e, cs, ce) :: r, P q) ↔ (P (s, e, cs, ce) ∨ ∃ q ∈ r, P q) := by
+        intro P; simp only [List.mem_cons, exists_eq_or_imp]
+      rw [hex]
+      by_cases hk1 : k < (s - last).toNat
+      · rw [if_pos hk1, List.getElem?_replicate, if_pos hk1]
+        constructor
+        · intro h0; cases h0
+        · rintro (h0 | ⟨q, hq, h0⟩)
+          · rw [hq0, if_neg (by omega)] at h0; cases h0
+          · rw [hrest q hq _ (by omega)] at h0; cases h0
+      · rw [if_neg hk1]
+        by_cases hk2 : k - (s - last).toNat < (e - s).toNat
+        · rw [if_pos hk2, coverSp_mk_getElem? s e cs ce hw, if_pos hk2, hq0,
+            if_pos (show s ≤ last + (k : Int) ∧ last + (k : Int) < e from by omega)]
+          have hidx : last + (k : Int) - s = ((k - (s - last).toNat : Nat) : Int) := by omega
+          rw [hidx]
+          constructor
+          · intro h0; left; injection h0
+          · rintro (h0 | ⟨q, hq, h0⟩)
+            · rw [h0]
+            · rw [hrest q hq _ (by omega)] at h0; cases h0
+        · rw [if_neg hk2, hcov]
+          have e1 : e + ((k - (s - last).toNat - (e - s).toNat : Nat) : Int) = last + (k : Int) := by omega
+          rw [e1]
+          constructor
+          · intro h0; right; exact h0
+          · rintro (h0 | h0)
+            · rw [hq0, if_neg (by omega)] at h0; cases h0
+            · exact h0
+
+
+/-! ### inverse() in general: the tuples describe the map -/
+
+theorem coverSp_span_getElem? (s e : Int) (rv : Bool) (t : Nat) :
+    (coverSp (.span s e rv))[t]? =
+      if t < (e - s).toNat then some (some (if rv then e - 1 - (t : Int) else s + (t : Int))) else none := by
+  rw [coverSp_span_irange]
+  cases rv with
+  | false => simp only [Bool.false_eq_true, if_false, irange_getElem?]
+  | true =>
+    simp only [if_true]
+    have hl : (irange s e some).length = (e - s).toNat := by
+      simp only [irange, List.length_map, List.length_range]
+    split
+    · rename_i ht
+      rw [List.getElem?_eq_getElem (by simp only [List.length_reverse, hl]; exact ht)]
+      rw [List.getElem_reverse]
+      have h2 := irange_getElem? s e ((irange s e some).length - 1 - t)
+      rw [if_pos (by omega), List.getElem?_eq_getElem (by omega)] at h2
+      rw [h2]; congr 2; omega
+    · rename_i ht
+      rw [List.getElem?_eq_none (by simp only [List.length_reverse, hl]; omega)]
+
+/-- the tuples collected by `inverse()` describe the map: map position `j` points at parent
+    position `k` iff some tuple says so -/
+theorem cover_tup : ∀ (l : List FSp) (cum : Int), NonNegL l → ∀ (k j : Int),
+    ((cum ≤ j ∧ (coverL l)[(j - cum).toNat]? = some (some k)) ↔ ∃ q ∈ invTemp cum l, tupAt q k = some j)
+  | [], cum, _, k, j => by simp [invTemp]
+  | .lost n :: r, cum, hN, k, j => by
+    have hn : 0 ≤ n := hN.head
+    simp only [invTemp]
+    rw [← cover_tup r (cum + n) hN.tail k j]
+    simp only [coverL_cons, coverSp_lost, List.getElem?_append, List.length_replicate]
+    constructor
+    · rintro ⟨h1, h2⟩
+      split at h2
+      · rw [List.getElem?_replicate] at h2
+        split at h2 <;> cases h2
+      · refine ⟨by omega, ?_⟩
+        rw [← h2]; congr 1; omega
+    · rintro ⟨h1, h2⟩
+      refine ⟨by omega, ?_⟩
+      rw [if_neg (by omega), ← h2]; congr 1; omega
+  | .span s e rv :: r, cum, hN, k, j => by
+    have hn : 0 ≤ e - s := hN.head
+    have ih := cover_tup r (cum + (e - s)) hN.tail k j
+    simp only [invTemp, List.mem_cons, exists_eq_or_imp]
+    rw [← ih]
+    simp only [coverL_cons, List.getElem?_append, coverSp_length, coverSp_span_getElem?]
+    have hlen : (FSp.span s e rv).length = e - s := rfl
+    rw [hlen]
+    have htup : tupAt (if rv = true then (s, e, cum + (e - s), cum) else (s, e, cum, cum + (e - s))) k = some j ↔
+        (cum ≤ j ∧ j < cum + (e - s) ∧ k = (if rv then e - 1 - (j - cum) else s + (j - cum))) := by
+      cases rv with
+      | false =>
+        simp only [Bool.false_eq_true, if_false, tupAt]
+        have hc : cum ≤ cum + (e - s) := by omega
+        simp only [if_pos hc]
+        by_cases hr : s ≤ k ∧ k < e
+        · simp only [if_pos hr, Option.some.injEq]; omega
+        · simp only [if_neg hr]
+          constructor
+          · intro h; cases h
+          · intro h; omega
+      | true =>
+        simp only [if_true, tupAt]
+        by_cases hr : s ≤ k ∧ k < e
+        · have hc : ¬ (cum + (e - s) ≤ cum) := by omega
+          simp only [if_pos hr, if_neg hc, Option.some.injEq]; omega
+        · simp only [if_neg hr]
+          constructor
+          · intro h; cases h
+          · intro h; omega
+    rw [htup]
+    constructor
+    · rintro ⟨h1, h2⟩
+      split at h2
+      · rename_i hlt
+        left
+        simp only [Option.some.injEq] at h2
+        refine ⟨h1, by omega, ?_⟩
+        rw [← h2]; cases rv <;> simp <;> omega
+      · rename_i hlt
+        right
+        refine ⟨by omega, ?_⟩
+        rw [← h2]; congr 1; omega
+    · rintro (⟨h1, h2, h3⟩ | ⟨h1, h2⟩)
+      · refine ⟨h1, ?_⟩
+        rw [if_pos (by omega), if_pos (by omega), h3]
+        cases rv <;> simp <;> omega
+      · refine ⟨by omega, ?_⟩
+        rw [if_neg (by omega), ← h2]; congr 1; omega
+
+
+/-! ### inverse() in general: sorting and the full specification -/
+
+/-- two spans do not overlap in parent coordinates (touching allowed; lost spans never overlap) -/
+def disjSp : FSp → FSp → Prop
+  | .span s1 e1 _, .span s2 e2 _ => e1 ≤ s2 ∨ e2 ≤ s1
+  | _, _ => True
+
+instance : DecidableRel disjSp := fun a b => by
+  cases a <;> cases b <;> unfold disjSp <;> infer_instance
+
+/-- the real spans are pairwise non-overlapping in parent coordinates (any order, any direction) -/
+def NoOverlap (m : FM) : Prop := m.spans.Pairwise disjSp
+instance (m : FM) : Decidable (NoOverlap m) := by unfold NoOverlap; infer_instance
+
+def disjQ (a b : Q) : Prop := a.2.1 ≤ b.1 ∨ b.2.1 ≤ a.1
+
+theorem invTemp_mem_span : ∀ (l : List FSp) (cum : Int) (q : Q), q ∈ invTemp cum l →
+    ∃ rv, FSp.span q.1 q.2.1 rv ∈ l
+  | [], _, q, h => by simp [invTemp] at h
+  | .lost n :: r, cum, q, h => by
+    simp only [invTemp] at h
+    obtain ⟨rv, hrv⟩ := invTemp_mem_span r _ q h
+    exact ⟨rv, List.mem_cons_of_mem _ hrv⟩
+  | .span s e rv :: r, cum, q, h => by
+    simp only [invTemp, List.mem_cons] at h
+    rcases h with rfl | h
+    · refine ⟨rv, ?_⟩
+      cases rv <;> simp
+    · obtain ⟨rv', hrv⟩ := invTemp_mem_span r _ q h
+      exact ⟨rv', List.mem_cons_of_mem _ hrv⟩
+
+theorem invTemp_wf : ∀ (l : List FSp) (cum : Int), NonNegL l → ∀ q ∈ invTemp cum l, wfQ q
+  | [], _, _, q, h => by simp [invTemp] at h
+  | .lost n :: r, cum, hN, q, h => by
+    simp only [invTemp] at h
+    exact invTemp_wf r _ hN.tail q h
+  | .span s e rv :: r, cum, hN, q, h => by
+    have hn : 0 ≤ e - s := hN.head
+    simp only [invTemp, List.mem_cons] at h
+    rcases h with rfl | h
+    · cases rv <;> simp only [wfQ, Bool.false_eq_true, if_false, if_true] <;> omega
+    · exact invTemp_wf r _ hN.tail q h
+
+theorem invTemp_disj : ∀ (l : List FSp) (cum : Int), l.Pairwise disjSp → (invTemp cum l).Pairwise disjQ
+  | [], _, _ => by simp [invTemp]
+  | .lost n :: r, cum, h => by
+    simp only [List.pairwise_cons] at h
+    simp only [invTemp]
+    exact invTemp_disj r _ h.2
+  | .span s e rv :: r, cum, h => by
+    simp only [List.pairwise_cons] at h
+    simp only [invTemp, List.pairwise_cons]
+    refine ⟨?_, invTemp_disj r _ h.2⟩
+    intro q hq
+    obtain ⟨rv', hrv⟩ := invTemp_mem_span r _ q hq
+    have := h.1 _ hrv
+    simp only [disjSp] at this
+    cases rv <;> simpa [disjQ] using this
+
+theorem qle_total (a b : Q) (h : qle a b = false) : qle b a = true := by
+  obtain ⟨a1, a2, a3, a4⟩ := a
+  obtain ⟨b1, b2, b3, b4⟩ := b
+  simp only [qle, decide_eq_false_iff_not, decide_eq_true_eq] at h ⊢
+  omega
+
+theorem qle_trans (a b c : Q) (h1 : qle a b = true) (h2 : qle b c = true) : qle a c = true := by
+  obtain ⟨a1, a2, a3, a4⟩ := a
+  obtain ⟨b1, b2, b3, b4⟩ := b
+  obtain ⟨c1, c2, c3, c4⟩ := c
+  simp only [qle, decide_eq_true_eq] at h1 h2 ⊢
+  omega
+
+theorem insertQ_sorted (v : Q) : ∀ (L : List Q), L.Pairwise (fun a b => qle a b = true) →
+    (insertQ v L).Pairwise (fun a b => qle a b = true)
+  | [], _ => by simp [insertQ]
+  | x :: xs, h => by
+    simp only [List.pairwise_cons] at h
+    simp only [insertQ]
+    split
+    · rename_i hvx
+      simp only [List.pairwise_cons]
+      refine ⟨?_, h.1, h.2⟩
+      intro z hz
+      simp only [List.mem_cons] at hz
+      rcases hz with rfl | hz
+      · exact hvx
+      · exact qle_trans _ _ _ hvx (h.1 z hz)
+    · rename_i hvx
+      simp only [List.pairwise_cons]
+      refine ⟨?_, insertQ_sorted v xs h.2⟩
+      intro z hz
+      rcases (mem_insertQ v z xs).1 hz with rfl | hz
+      · exact qle_total _ _ (by simpa using hvx)
+      · exact h.1 z hz
+
+theorem sort_sorted : ∀ (T : List Q), (T.foldr insertQ []).Pairwise (fun a b => qle a b = true)
+  | [] => by simp
+  | x :: xs => by simp only [List.foldr_cons]; exact insertQ_sorted x _ (sort_sorted xs)
+
+theorem insertQ_pairwise (R : Q → Q → Prop) (hsym : ∀ a b, R a b → R b a) (v : Q) :
+    ∀ (L : List Q), (∀ x ∈ L, R v x) → L.Pairwise R → (insertQ v L).Pairwise R
+  | [], _, _ => by simp [insertQ]
+  | x :: xs, hv, h => by
+    simp only [List.pairwise_cons] at h
+    simp only [insertQ]
+    split
+    · simp only [List.pairwise_cons]
+      exact ⟨hv, h.1, h.2⟩
+    · simp only [List.pairwise_cons]
+      refine ⟨?_, insertQ_pairwise R hsym v xs (fun z hz => hv z (List.mem_cons_of_mem _ hz)) h.2⟩
+      intro z hz
+      rcases (mem_insertQ v z xs).1 hz with rfl | hz
+      · exact hsym _ _ (hv x List.mem_cons_self)
+      · exact h.1 z hz
+
+theorem sort_pairwise (R : Q → Q → Prop) (hsym : ∀ a b, R a b → R b a) :
+    ∀ (T : List Q), T.Pairwise R → (T.foldr insertQ []).Pairwise R
+  | [], _ => by simp
+  | x :: xs, h => by
+    simp only [List.pairwise_cons] at h
+    simp only [List.foldr_cons]
+    apply insertQ_pairwise R hsym x _ _ (sort_pairwise R hsym xs h.2)
+    intro z hz
+    exact h.1 z ((mem_sortedQ xs z).1 hz)
+
+theorem qchain_of_sorted : ∀ (T : List Q) (last : Int), (∀ q ∈ T, last ≤ q.1 ∧ wfQ q) →
+    T.Pairwise (fun a b => qle a b = true) → T.Pairwise disjQ → QChain last T
+  | [], _, _, _, _ => trivial
+  | q :: r, last, hall, hs, hd => by
+    simp only [List.pairwise_cons] at hs hd
+    have hq := hall q List.mem_cons_self
+    simp only [QChain]
+    refine ⟨hq.1, hq.2, ?_⟩
+    apply qchain_of_sorted r q.2.1 _ hs.2 hd.2
+    intro q' hq'
+    have hw' := (hall q' (List.mem_cons_of_mem _ hq')).2
+    refine ⟨?_, hw'⟩
+    have h1 := hs.1 q' hq'
+    have h2 := hd.1 q' hq'
+    have hw := hq.2
+    obtain ⟨a1, a2, a3, a4⟩ := q
+    obtain ⟨b1, b2, b3, b4⟩ := q'
+    simp only [qle, decide_eq_true_eq, disjQ, wfQ] at h1 h2 hw hw' ⊢
+    omega
+
+theorem invLoop_ls : ∀ (T : List Q) (last : Int) (sp : List FSp) (ls : Int),
+    invLoop last T = .ok (sp, ls) → ls = last ∨ ∃ q ∈ T, ls = q.2.1
+  | [], last, sp, ls, h => by
+    simp only [invLoop] at h; injection h with h; injection h with h1 h2; left; exact h2.symm
+  | (s, e, cs, ce) :: r, last, sp, ls, h => by
+    simp only [invLoop] at h
+    split at h
+    · cases h
+    · split at h
+      · cases h
+      · rename_i rest ls' hr
+        injection h with h; injection h with h1 h2; subst h2
+        right
+        rcases invLoop_ls r e rest ls' hr with h3 | ⟨q, hq, h3⟩
+        · exact ⟨(s, e, cs, ce), List.mem_cons_self, h3⟩
+        · exact ⟨q, List.mem_cons_of_mem _ hq, h3⟩
+
+/-- `inverse()` of any map whose real spans are pairwise non-overlapping, inside the parent and of
+    non-negative length — in any order and any direction -/
+theorem inverse_general_spec (m : FM) (hN : NonNeg m) (hw : Within m) (hd : NoOverlap m)
+    (hpl : 0 ≤ m.parentLength) :
+    ∃ i, inverse m = .ok i ∧ i.parentLength = len m ∧ len i = m.parentLength ∧ NonNeg i ∧
+      ∀ (k : Nat) (j : Int), (cover i)[k]? = some (some j) ↔
+        (0 ≤ j ∧ (cover m)[j.toNat]? = some (some (k : Int))) := by
+  have hall : ∀ q ∈ (invTemp 0 m.spans).foldr insertQ [], (0 : Int) ≤ q.1 ∧ wfQ q := by
+    intro q hq
+    have hq' := (mem_sortedQ _ q).1 hq
+    refine ⟨?_, invTemp_wf _ _ hN q hq'⟩
+    obtain ⟨rv, hrv⟩ := invTemp_mem_span _ _ q hq'
+    have := hw _ hrv; simp only [FSp.within] at this; omega
+  have hdq : ((invTemp 0 m.spans).foldr insertQ []).Pairwise disjQ :=
+    sort_pairwise disjQ (fun a b h => by simp only [disjQ] at h ⊢; omega) _ (invTemp_disj _ _ hd)
+  have hch := qchain_of_sorted _ 0 hall (sort_sorted _) hdq
+  obtain ⟨sp, ls, hl, hNs, hle, hlen, hub, hcov⟩ := invLoop_cover _ 0 hch
+  have hls : ls ≤ m.parentLength := by
+    rcases invLoop_ls _ _ _ _ hl with h1 | ⟨q, hq, h1⟩
+    · omega
+    · obtain ⟨rv, hrv⟩ := invTemp_mem_span _ _ q ((mem_sortedQ _ q).1 hq)
+      have := hw _ hrv; simp only [FSp.within] at this; omega
+  refine ⟨⟨sp ++ (if m.parentLength > ls then [FSp.lost (m.parentLength - ls)] else []), len m⟩, ?_, rfl, ?_, ?_, ?_⟩
+  · unfold inverse
+    simp only []
+    rw [hl]
+  · simp only [len_eq_lenL, lenL_append, hlen]
+    split <;> simp [FSp.length] <;> omega
+  · intro x hx
+    simp only [List.mem_append] at hx
+    rcases hx with hx | hx
+    · exact hNs x hx
+    · split at hx
+      · simp only [List.mem_cons, List.not_mem_nil, or_false] at hx
+        subst hx; simp only [FSp.length]; omega
+      · simp at hx
+  · intro k j
+    have hA : (cover ⟨sp ++ (if m.parentLength > ls then [FSp.lost (m.parentLength - ls)] else []), len m⟩)[k]?
+        = some (some j) ↔ (coverL sp)[k]? = some (some j) := by
+      rw [cover_eq_coverL]
+      simp only [coverL_append]
+      split
+      · simp only [coverL_cons, coverL_nil, List.append_nil, coverSp_lost]
+        exact getElem?_append_nones _ _ _ _
+      · simp
+    rw [hA, hcov k j]
+    have hB := cover_tup m.spans 0 hN (k : Int) j
+    simp only [Int.sub_zero] at hB
+    rw [cover_eq_coverL, hB]
+    simp only [Int.zero_add]
+    constructor
+    · rintro ⟨q, hq, h⟩; exact ⟨q, (mem_sortedQ _ q).1 hq, h⟩
+    · rintro ⟨q, hq, h⟩; exact ⟨q, (mem_sortedQ _ q).2 hq, h⟩
+
+
+/-! ### shadow() in general -/
+
+/-- `shadow()` for any non-overlapping map (any order, any direction) -/
+theorem shadow_general_spec (m s : FM) (hN : NonNeg m) (hw : Within m) (hd : NoOverlap m)
+    (hpl0 : 0 ≤ m.parentLength) (h : shadow m = .ok s) (p : Int) :
+    some p ∈ cover s ↔ (0 ≤ p ∧ p < m.parentLength ∧ some p ∉ cover m) := by
+  obtain ⟨i, hi, hpl, hlen, hN, hcov⟩ := inverse_general_spec m hN hw hd hpl0
+  unfold shadow at h
+  rw [hi] at h
+  simp only [] at h
+  unfold gaps at h
+  rw [fromLocations_mem _ _ p s h, locsOf_lost _ _ _ hN, hlen, ← cover_eq_coverL]
+  simp only [Int.sub_zero]
+  have hL : ((cover i).length : Int) = m.parentLength := by
+    rw [← hlen]; exact coverL_length hN
+  constructor
+  · rintro ⟨⟨h0, h1⟩, h2⟩
+    refine ⟨h0, h2, ?_⟩
+    intro hm
+    obtain ⟨j, hj⟩ := List.getElem?_of_mem hm
+    have := (hcov p.toNat (j : Int)).2 ⟨by omega, by
+      rw [show ((j : Int)).toNat = j by omega, hj]; congr 2; omega⟩
+    rw [h1] at this; cases this
+  · rintro ⟨h0, h1, h2⟩
+    refine ⟨⟨h0, ?_⟩, h1⟩
+    have hlt : p.toNat < (cover i).length := by omega
+    rw [List.getElem?_eq_getElem hlt]
+    cases hx : (cover i)[p.toNat] with
+    | none => rfl
+    | some j =>
+      exfalso
+      have h3 : (cover i)[p.toNat]? = some (some j) := by rw [List.getElem?_eq_getElem hlt, hx]
+      have := (hcov p.toNat j).1 h3
+      apply h2
+      have h4 : (cover m)[j.toNat]? = some (some p) := by rw [this.2]; congr 2; omega
+      exact List.mem_of_getElem? h4
+
+theorem shadow_parent (m s : FM) (hN : NonNeg m) (hw : Within m) (hd : NoOverlap m)
+    (hpl0 : 0 ≤ m.parentLength) (h : shadow m = .ok s) : s.parentLength = m.parentLength := by
+  obtain ⟨i, hi, hpl, hlen, _, _⟩ := inverse_general_spec m hN hw hd hpl0
+  unfold shadow at h
+  rw [hi] at h
+  simp only [] at h
+  rw [(gaps_within i s h).2, hlen]
+
+
+/-! ### nucleic_reversed: set-level mirror -/
+
+/-- `nucleic_reversed()` mirrors the covered SET of parent positions, also for reversed spans -/
+theorem nucleicReversed_mem (m r : FM) (hw : Within m) (h : nucleicReversed m = .ok r) (p : Int) :
+    some p ∈ cover r ↔ some (m.parentLength - 1 - p) ∈ cover m := by
+  rw [nucleicReversed_total m hw] at h
+  injection h with h; subst h
+  rw [cover_eq_coverL, cover_eq_coverL, mem_coverL, mem_coverL]
+  simp only [List.mem_reverse, List.mem_map]
+  constructor
+  · rintro ⟨s, e, rv, ⟨x, hx, hxe⟩, h1, h2⟩
+    cases x with
+    | lost n => simp [revSp] at hxe
+    | span s0 e0 rv0 =>
+      have h0 := hw _ hx
+      simp only [FSp.within] at h0
+      simp only [revSp, mkSpan] at hxe
+      rw [if_neg (by omega)] at hxe
+      injection hxe with a b c
+      exact ⟨s0, e0, rv0, hx, by omega, by omega⟩
+  · rintro ⟨s, e, rv, hx, h1, h2⟩
+    have h0 := hw _ hx
+    simp only [FSp.within] at h0
+    refine ⟨m.parentLength - e, m.parentLength - e + (e - s), false, ⟨_, hx, ?_⟩, by omega, by omega⟩
+    simp only [revSp, mkSpan]
+    rw [if_neg (by omega)]
+
+
+/-! ### inverse(inverse(m)) denotes m -/
+
+/-- the map-coordinate blocks of two tuples do not overlap -/
+def cdisj (a b : Q) : Prop :=
+  max a.2.2.1 a.2.2.2 ≤ min b.2.2.1 b.2.2.2 ∨ max b.2.2.1 b.2.2.2 ≤ min a.2.2.1 a.2.2.2
+
+theorem invTemp_cdisj : ∀ (l : List FSp) (cum : Int), NonNegL l → (invTemp cum l).Pairwise cdisj
+  | [], _, _ => by simp [invTemp]
+  | .lost n :: r, cum, hN => by simp only [invTemp]; exact invTemp_cdisj r _ hN.tail
+  | .span s e rv :: r, cum, hN => by
+    have hn : 0 ≤ e - s := hN.head
+    simp only [invTemp, List.pairwise_cons]
+    refine ⟨?_, invTemp_cdisj r _ hN.tail⟩
+    intro q hq
+    have := invTemp_bounds r (cum + (e - s)) hN.tail q hq
+    cases rv <;> simp only [cdisj, Bool.false_eq_true, if_false, if_true] <;> omega
+
+theorem invLoop_elems : ∀ (T : List Q) (last : Int) (sp : List FSp) (ls : Int),
+    invLoop last T = .ok (sp, ls) →
+    ∀ x ∈ sp, x.isLost = true ∨ ∃ q ∈ T, x = mkSpan q.2.2.1 q.2.2.2 (decide (q.2.2.1 > q.2.2.2))
+  | [], last, sp, ls, h => by
+    simp only [invLoop] at h; injection h with h; injection h with h1 h2; subst h1; simp
+  | (s, e, cs, ce) :: r, last, sp, ls, h => by
+    simp only [invLoop] at h
+    split at h
+    · cases h
+    · split at h
+      · cases h
+      · rename_i rest ls' hr
+        injection h with h; injection h with h1 h2; subst h1
+        have ih := invLoop_elems r e rest ls' hr
+        intro x hx
+        simp only [List.mem_append] at hx
+        rcases hx with hx | hx
+        · split at hx <;> simp only [List.mem_cons, List.not_mem_nil, or_false] at hx
+          · rcases hx with rfl | rfl
+            · left; rfl
+            · right; exact ⟨(s, e, cs, ce), List.mem_cons_self, rfl⟩
+          · subst hx; right; exact ⟨(s, e, cs, ce), List.mem_cons_self, rfl⟩
+        · rcases ih x hx with h3 | ⟨q, hq, h3⟩
+          · left; exact h3
+          · right; exact ⟨q, List.mem_cons_of_mem _ hq, h3⟩
+
+theorem disjSp_lost_left (n : Int) (x : FSp) : disjSp (.lost n) x := by
+  cases x <;> simp [disjSp]
+theorem disjSp_lost_right (n : Int) (x : FSp) : disjSp x (.lost n) := by
+  cases x <;> simp [disjSp]
+
+theorem disjSp_mk (a b : Q) (h : cdisj a b) :
+    disjSp (mkSpan a.2.2.1 a.2.2.2 (decide (a.2.2.1 > a.2.2.2))) (mkSpan b.2.2.1 b.2.2.2 (decide (b.2.2.1 > b.2.2.2))) := by
+  simp only [cdisj] at h
+  unfold mkSpan
+  split <;> split <;> simp only [disjSp] <;> omega
+
+theorem invLoop_nooverlap : ∀ (T : List Q) (last : Int) (sp : List FSp) (ls : Int),
+    T.Pairwise cdisj → invLoop last T = .ok (sp, ls) → sp.Pairwise disjSp
+  | [], last, sp, ls, _, h => by
+    simp only [invLoop] at h; injection h with h; injection h with h1 h2; subst h1; simp
+  | (s, e, cs, ce) :: r, last, sp, ls, hT, h => by
+    simp only [List.pairwise_cons] at hT
+    simp only [invLoop] at h
+    split at h
+    · cases h
+    · split at h
+      · cases h
+      · rename_i rest ls' hr
+        injection h with h; injection h with h1 h2; subst h1
+        have ih := invLoop_nooverlap r e rest ls' hT.2 hr
+        have hel := invLoop_elems r e rest ls' hr
+        have hmk : ∀ x ∈ rest, disjSp (mkSpan cs ce (decide (cs > ce))) x := by
+          intro x hx
+          rcases hel x hx with h3 | ⟨q, hq, h3⟩
+          · cases x with
+            | lost n => exact disjSp_lost_right _ _
+            | span _ _ _ => simp [FSp.isLost] at h3
+          · subst h3
+            exact disjSp_mk (s, e, cs, ce) q (hT.1 q hq)
+        rw [List.pairwise_append]
+        refine ⟨?_, ih, ?_⟩
+        · split
+          · simp only [List.pairwise_cons, List.mem_cons, List.not_mem_nil, or_false, forall_eq,
+              List.Pairwise.nil, and_true, false_imp_iff, implies_true]
+            exact disjSp_lost_left _ _
+          · simp
+        · intro a ha b hb
+          split at ha <;> simp only [List.mem_cons, List.not_mem_nil, or_false] at ha
+          · rcases ha with rfl | rfl
+            · exact disjSp_lost_left _ _
+            · exact hmk b hb
+          · subst ha; exact hmk b hb
+
+/-- the inverse of an invertible map is itself invertible (its spans do not overlap) -/
+theorem inverse_nooverlap (m i : FM) (hN : NonNeg m) (h : inverse m = .ok i) : NoOverlap i := by
+  unfold inverse at h
+  simp only [] at h
+  split at h
+  · cases h
+  · rename_i sp ls hl
+    injection h with h; subst h
+    have hc : ((invTemp 0 m.spans).foldr insertQ []).Pairwise cdisj :=
+      sort_pairwise cdisj (fun a b h => by simp only [cdisj] at h ⊢; omega) _ (invTemp_cdisj _ _ hN)
+    have := invLoop_nooverlap _ 0 sp ls hc hl
+    simp only [NoOverlap]
+    rw [List.pairwise_append]
+    refine ⟨this, ?_, ?_⟩
+    · split <;> simp
+    · intro a _ b hb
+      split at hb
+      · simp only [List.mem_cons, List.not_mem_nil, or_false] at hb; subst hb
+        exact disjSp_lost_right _ _
+      · simp at hb
+
+/-- `inverse(inverse(m))` denotes the same map as `m`, for every invertible map -/
+theorem inverse_inverse_cover (m : FM) (hN : NonNeg m) (hw : Within m) (hd : NoOverlap m)
+    (hpl : 0 ≤ m.parentLength) :
+    ∃ i i2, inverse m = .ok i ∧ inverse i = .ok i2 ∧ cover i2 = cover m ∧
+      i2.parentLength = m.parentLength := by
+  obtain ⟨i, hi, hip, hilen, hiN, hicov⟩ := inverse_general_spec m hN hw hd hpl
+  have hiw := (inverse_within m i hN hi).1
+  have hid := inverse_nooverlap m i hN hi
+  have hlm : 0 ≤ len m := lenL_nonneg hN
+  obtain ⟨i2, hi2, hi2p, hi2len, hi2N, hi2cov⟩ := inverse_general_spec i hiN hiw hid (by omega)
+  refine ⟨i, i2, hi, hi2, ?_, by omega⟩
+  have hl2 : ((cover i2).length : Int) = len m := by
+    have := coverL_length hi2N
+    rw [← cover_eq_coverL, ← len_eq_lenL] at this; omega
+  have hl1 : ((cover m).length : Int) = len m := coverL_length hN
+  have hchain : ∀ (k : Nat) (j : Int), (cover i2)[k]? = some (some j) ↔ (cover m)[k]? = some (some j) := by
+    intro k j
+    rw [hi2cov k j]
+    constructor
+    · rintro ⟨h0, h1⟩
+      have := (hicov j.toNat (k : Int)).1 h1
+      rw [show ((k : Int)).toNat = k by omega] at this
+      rw [this.2]; congr 2; omega
+    · intro h1
+      have h0 : 0 ≤ j := by
+        have hm : some j ∈ cover m := List.mem_of_getElem? h1
+        rw [cover_eq_coverL, mem_coverL] at hm
+        obtain ⟨s, e, rv, hx, hs, _⟩ := hm
+        have := hw _ hx; simp only [FSp.within] at this; omega
+      refine ⟨h0, ?_⟩
+      apply (hicov j.toNat (k : Int)).2
+      refine ⟨by omega, ?_⟩
+      rw [show ((k : Int)).toNat = k by omega, h1]; congr 2; omega
+  apply List.ext_getElem?
+  intro k
+  by_cases hk : k < (cover m).length
+  · have hk2 : k < (cover i2).length := by omega
+    rw [List.getElem?_eq_getElem hk, List.getElem?_eq_getElem hk2]
+    congr 1
+    cases hx : (cover i2)[k] with
+    | some j =>
+      have := (hchain k j).1 (by rw [List.getElem?_eq_getElem hk2, hx])
+      rw [List.getElem?_eq_getElem hk] at this
+      injection this with this; exact this.symm
+    | none =>
+      cases hy : (cover m)[k] with
+      | none => rfl
+      | some j =>
+        have := (hchain k j).2 (by rw [List.getElem?_eq_getElem hk, hy])
+        rw [List.getElem?_eq_getElem hk2, hx] at this
+        cases this
+  · rw [List.getElem?_eq_none (by omega), List.getElem?_eq_none (by omega)]
+
 end CogentModel.FMap
